@@ -200,6 +200,18 @@ def enumerate_cases(tier, seed):
                             if xdtype:
                                 c["xdtype"] = xdtype
                             cases.append(c)
+        # carvers fitted with a dev sample (history records the dev tests of every tested combination)
+        for carver in ("binary", "continuous"):
+            alpha = carving_space.alphabet(carver, "quick")
+            tabs, tr = carving_space.tables(carver, "QNT" if kind != "CAT" else "CAT", "quick", kmax=3, alpha=alpha)
+            for cells in tabs[:: 2 if tier == "quick" else 1]:
+                vt, values, xdtype = value_types(kind, len(cells))[0]
+                for name, dcells in carving_space.dev_variants(carver, list(cells), alpha, 1):
+                    if not carving_space.valid_target(carver, dcells):
+                        continue
+                    for mfm in (None, 0.25):
+                        cfg = {"sort_by": "cramerv", "max_n_mod": 3, "min_freq": 0.1, "min_freq_mod": mfm, "output_dtype": "float", "dropna": True}
+                        cases.append({"type": "carver", "carver": carver, "kind": kind, "cells": [list(x) for x in cells], "nan": None, "dev": {"cells": [list(x) for x in dcells], "nan": None, "name": name}, "cfg": cfg, "seed": seed, "values": values, "vt": vt + "+dev"})
         # carvers next to an id-like feature that is dropped for every class / by the base discretization
         for carver in ("binary", "continuous", "multiclass"):
             alpha = carving_space.alphabet(carver, "quick")[:4]
